@@ -64,40 +64,55 @@ func VerifReadAPI() {
 	}
 	rt.Assert(verifStatus(lrec) == 200 && rt.Eq(lrec.Body, rt.JSONList(want...)), "C16/log-list-is-the-stored-ids")
 
-	// one arbitrary update, then the same questions
-	logID, oldSize, nextRaw := rt.Str("logID"), rt.U64("oldSize"), rt.Bytes("nextRaw")
-	out, uerr := wd.W.Update(context.Background(), logID, oldSize, nextRaw, witness.VerifProof(rt.Param("maxproof", 1)))
-	li := -1
-	for i, x := range wd.IDs {
-		if logID == x {
-			li = i
-		}
-	}
-	// (the engine iterates a store in insertion order: previously stored ids first, a new one last)
-	var want2 []any
-	added := false
-	for i, x := range wd.IDs {
+	// a history of arbitrary updates (accepted and refused, any log), the same questions after each
+	held := make([][]byte, len(wd.IDs)) // the latest cosigned checkpoint per log, nil = none
+	has := make([]bool, len(wd.IDs))
+	var order []int // logs in the order their first checkpoint was stored (the engine iterates a store in insertion order)
+	for i := range wd.IDs {
 		if wd.Stored[i] {
-			want2 = append(want2, []byte(x))
+			held[i], has[i] = wd.Prev[i], true
+			order = append(order, i)
 		}
 	}
-	if uerr == nil && li >= 0 && !wd.Stored[li] {
-		want2 = append(want2, []byte(wd.IDs[li]))
-		added = true
-	}
-	lrec2 := &rt.RecWriter{}
-	s.getLogs(lrec2, &nethttp.Request{})
-	rt.Assert(verifStatus(lrec2) == 200 && rt.Eq(lrec2.Body, rt.JSONList(want2...)), "C16/log-list-after-update")
-	rt.Cover(added, "http/first-accept-adds-entry")
-	rt.Cover(uerr != nil && li >= 0 && !wd.Stored[li], "http/refused-first-submission")
-	if li >= 0 {
-		rec2 := verifGet(s, wd.IDs[li])
-		if uerr == nil {
-			rt.Assert(verifStatus(rec2) == 200 && rt.Eq(rec2.Body, out), "C16/get-after-accept-returns-the-cosigned-bytes")
-		} else if wd.Stored[li] {
-			rt.Assert(verifStatus(rec2) == 200 && rt.Eq(rec2.Body, wd.Prev[li]), "C16/get-after-refusal-unchanged")
-		} else {
-			rt.Assert(verifStatus(rec2) == 404, "C16/refused-first-submission-creates-no-entry")
+	steps := rt.Param("steps", 2)
+	for step := 0; step < steps; step++ {
+		logID, oldSize, nextRaw := rt.Str("logID"), rt.U64("oldSize"), rt.Bytes("nextRaw")
+		out, uerr := wd.W.Update(context.Background(), logID, oldSize, nextRaw, witness.VerifProof(rt.Param("maxproof", 1)))
+		li := -1
+		for i, x := range wd.IDs {
+			if logID == x {
+				li = i
+			}
+		}
+		added := false
+		if uerr == nil && li >= 0 {
+			if !has[li] {
+				order = append(order, li)
+				added = true
+			}
+			held[li], has[li] = out, true
+		}
+		var want2 []any
+		for _, i := range order {
+			want2 = append(want2, []byte(wd.IDs[i]))
+		}
+		lrec2 := &rt.RecWriter{}
+		s.getLogs(lrec2, &nethttp.Request{})
+		rt.Assert(verifStatus(lrec2) == 200 && rt.Eq(lrec2.Body, rt.JSONList(want2...)), "C16/log-list-after-update")
+		rt.Cover(added, "http/first-accept-adds-entry")
+		rt.Cover(uerr != nil && li >= 0 && !has[li], "http/refused-first-submission")
+		rt.Cover(step == 1 && uerr == nil, "http/second-update-accepted")
+		// every configured log, not only the one just named
+		for i, x := range wd.IDs {
+			rec2 := verifGet(s, x)
+			switch {
+			case has[i] && i == li && uerr == nil:
+				rt.Assert(verifStatus(rec2) == 200 && rt.Eq(rec2.Body, out), "C16/get-after-accept-returns-the-cosigned-bytes")
+			case has[i]:
+				rt.Assert(verifStatus(rec2) == 200 && rt.Eq(rec2.Body, held[i]), "C16/get-after-refusal-unchanged")
+			default:
+				rt.Assert(verifStatus(rec2) == 404, "C16/refused-first-submission-creates-no-entry")
+			}
 		}
 	}
 }
